@@ -181,6 +181,9 @@ def _worker(args):
         mod = importlib.import_module(modname)
         key = (modname, subname)
         if key not in _WORKER:
+            from vf import build
+
+            build.prepare_repo()  # VERIF_REPO (seed trials): the real pure-Python modules must come from that copy as well
             sub = mod.SUBCHECKS[subname]
             sub.setup()
             _WORKER[key] = sub
